@@ -147,6 +147,7 @@ retry:
 					attempts++
 					goto retry
 				}
+				break // the policy declined: do not let a later command of the batch re-send this one
 			}
 		}
 	}
@@ -217,6 +218,7 @@ retry:
 					attempts++
 					goto retry
 				}
+				break // the policy declined: do not let a later command of the batch re-send this one
 			}
 		}
 	}
